@@ -96,9 +96,10 @@ IdProg ==
         c == RM(3, <<>>, "always", "t2", "none")
     IN [id |-> "ID1", family |-> "data", methods |-> <<a, b, c>>]
 
-LegacyProg(i) == [id |-> "L" \o ToString(i), family |-> "legacy",
+(* L4: the reply method returns the *standard* error type (which converts into the contract's): the entry point still returns the contract's *)
+LegacyProg(i) == [id |-> "L" \o ToString(i), family |-> "legacy", stdret |-> (i = 4),
                   \* L3: the reply method is not called `reply`, and a sudo handler taking a Reply is (a decoy: it must never get a reply)
-                  methods |-> << [RM(IF i = 3 THEN 1 ELSE i, <<>>, "always", "raw", "none") EXCEPT !.name = IF i = 3 THEN "on_reply" ELSE "reply"] >>,
+                  methods |-> << [RM(IF i \in {3, 4} THEN 1 ELSE i, <<>>, "always", "raw", "none") EXCEPT !.name = IF i = 3 THEN "on_reply" ELSE "reply"] >>,
                   decoy |-> i = 3]
 
 CompiledProgs ==
@@ -114,7 +115,7 @@ CompiledProgs ==
       \cup {MixProg(i) : i \in 1..4}
       \cup {NamedPayloadProg(i) : i \in 1..15}
       \cup {BinPayloadProg(i) : i \in 1..3} \cup {IdProg}
-      \cup {LegacyProg(i) : i \in 1..3}))
+      \cup {LegacyProg(i) : i \in 1..4}))
 
 (* ------------------------------------------------------------ the machine *)
 Progs == CompiledProgs
@@ -147,6 +148,7 @@ HandlerRow(p, h) ==
      succ |-> IF SuccM(p, h) = 0 THEN "" ELSE p.methods[SuccM(p, h)].name,
      err  |-> IF ErrM(p, h) = 0 THEN "" ELSE p.methods[ErrM(p, h)].name,
      alw  |-> IF AlwM(p, h) = 0 THEN "" ELSE p.methods[AlwM(p, h)].name]
+LongPayload(p) == p.id \in {"D3", "PB1", "PN2", "SHs"}
 StimOf(p) ==
     IF Legacy(p)
     THEN SetToSeq({[op |-> "reply", h |-> "?", recv |-> "", result |-> res, events |-> ev, class |-> c, val |-> 0, pay |-> "built"] :
@@ -154,6 +156,12 @@ StimOf(p) ==
     ELSE
     SetToSeq(
          {[op |-> "build", h |-> h, recv |-> r, result |-> "", events |-> 0, class |-> "", val |-> 0, pay |-> "built"] : h \in AllHandlers(p), r \in Recvs}
+    \* value tuple 2: long payloads (100 KiB: bytes, text, a struct holding a long text) through the builders of a few programs, and
+    \* the replies that bring them back
+    \cup {[op |-> "build", h |-> h, recv |-> r, result |-> "", events |-> 0, class |-> "", val |-> 2, pay |-> "built"] :
+              h \in (IF LongPayload(p) THEN AllHandlers(p) ELSE {}), r \in Recvs}
+    \cup {[op |-> "reply", h |-> h, recv |-> "wasm", result |-> res, events |-> 0, class |-> "good", val |-> 2, pay |-> "built"] :
+              h \in (IF LongPayload(p) THEN AllHandlers(p) ELSE {}), res \in {"ok", "err"}}
     \* replies that did not come from the builder: the right id, an empty or a garbage payload
     \cup {[op |-> "reply", h |-> h, recv |-> "wasm", result |-> res, events |-> 0, class |-> "absent", val |-> 0, pay |-> py] :
               \* (when the methods of a name disagree on the raw marker, which bytes decode is not specified: left out)
@@ -162,7 +170,7 @@ StimOf(p) ==
                     res \in {"ok", "err"}, ev \in {0, 2},
                     c \in IF DataMode(p, h) = "none" THEN {"absent", "good"} ELSE DataClasses} : h \in AllHandlers(p)}
     \cup {[op |-> "reply", h |-> "?", recv |-> "", result |-> res, events |-> 0, class |-> "absent", val |-> 0, pay |-> "built"] : res \in {"ok", "err"}})
-EmitProg(p) == [id |-> p.id, family |-> p.family, valid |-> ValidTable(p), decoy |-> (Legacy(p) /\ p.decoy),
+EmitProg(p) == [id |-> p.id, family |-> p.family, valid |-> ValidTable(p), decoy |-> (Legacy(p) /\ p.decoy), stdret |-> (Legacy(p) /\ p.stdret),
                 methods |-> [i \in 1..Len(p.methods) |-> ElabMethodR(p.methods[i])],
                 handlers |-> SetToSeq({HandlerRow(p, h) : h \in AllHandlers(p)}),
                 stim |-> StimOf(p),
